@@ -3,6 +3,7 @@
 # A VIOLATION or machinery failure on the unchanged tree is a bug of the machinery (or a new finding): look at replays/.
 cd "$(dirname "$0")/.."
 TIER=${2:-quick}
+mkdir -p .tlc
 for s in $1; do
   for c in C01 C02 C03 C04 C05 C06 C07 C08 C09 C10 C11 C12 C13 C14 C15 C16 C17 C18 C19 C20; do
     VERIF_SEED=$s ./check $c --tier $TIER > .tlc/sweep_${c}_$s.log 2>&1
